@@ -1581,7 +1581,8 @@ REGISTRY = {
                    "registrations with all status codes, choices of cancelled / not offered courses, existing assignments and instructors, "
                    "kind 'full' and schema versions at and beyond the window) x (track given / omitted / unknown, both ignore flags)",
                    extra_fn=c12_extra), allow_axioms=(),
-        explanation="C12_refinement: the line-by-line transcription Json.read_fields of cdedb::read equals the declarative specification "
+        explanation="C12_room_fields (the configured room factor / offset fields are the numbers found under those names in the course's `fields` object); "
+                    "C12_refinement: the line-by-line transcription Json.read_fields of cdedb::read equals the declarative specification "
                     "CdeSpec.spec_read for every document and option set (refusals with their reasons included); C12_track_selected / "
                     "_refuse_unknown_track / _refuse_no_or_several_tracks / _single_track_selected (which track, and the track refusals); "
                     "C12_participants/_order/_kept/"
